@@ -140,14 +140,13 @@ LL_UFDIV(8) LL_UFDIV(16) LL_UFDIV(32) LL_UFDIV(64)
 #define UREM_u16(a, b) ((b) != 0 ? __CPROVER_uninterpreted_urem16((a), (b)) : nondet_u16())
 #define UREM_u32(a, b) ((b) != 0 ? __CPROVER_uninterpreted_urem32((a), (b)) : nondet_u32())
 #define UREM_u64(a, b) ((b) != 0 ? __CPROVER_uninterpreted_urem64((a), (b)) : nondet_u64())
-#define SDIV_u8(a, b) (LL_DIVOK_S(8, a, b) ? __CPROVER_uninterpreted_sdiv8((a), (b)) : nondet_u8())
-#define SDIV_u16(a, b) (LL_DIVOK_S(16, a, b) ? __CPROVER_uninterpreted_sdiv16((a), (b)) : nondet_u16())
-#define SDIV_u32(a, b) (LL_DIVOK_S(32, a, b) ? __CPROVER_uninterpreted_sdiv32((a), (b)) : nondet_u32())
-#define SDIV_u64(a, b) (LL_DIVOK_S(64, a, b) ? __CPROVER_uninterpreted_sdiv64((a), (b)) : nondet_u64())
-#define SREM_u8(a, b) (LL_DIVOK_S(8, a, b) ? __CPROVER_uninterpreted_srem8((a), (b)) : nondet_u8())
-#define SREM_u16(a, b) (LL_DIVOK_S(16, a, b) ? __CPROVER_uninterpreted_srem16((a), (b)) : nondet_u16())
-#define SREM_u32(a, b) (LL_DIVOK_S(32, a, b) ? __CPROVER_uninterpreted_srem32((a), (b)) : nondet_u32())
-#define SREM_u64(a, b) (LL_DIVOK_S(64, a, b) ? __CPROVER_uninterpreted_srem64((a), (b)) : nondet_u64())
+/* exact fact used to relate symbols: for non-negative operands signed and unsigned division coincide */
+#define LL_UFSDIV(W) \
+  static inline u##W SDIV_u##W(u##W a, u##W b) { if (!LL_DIVOK_S(W, a, b)) return nondet_u##W(); \
+    return (((a | b) >> (W - 1)) == 0) ? __CPROVER_uninterpreted_udiv##W(a, b) : __CPROVER_uninterpreted_sdiv##W(a, b); } \
+  static inline u##W SREM_u##W(u##W a, u##W b) { if (!LL_DIVOK_S(W, a, b)) return nondet_u##W(); \
+    return (((a | b) >> (W - 1)) == 0) ? __CPROVER_uninterpreted_urem##W(a, b) : __CPROVER_uninterpreted_srem##W(a, b); }
+LL_UFSDIV(8) LL_UFSDIV(16) LL_UFSDIV(32) LL_UFSDIV(64)
 /* uninterpreted floating-point symbols see NaNs canonicalised, so that they are insensitive to the payload */
 #define LL_CANON32(f) ((f) != (f) ? (u32)0x7fc00000u : F2U32(f))
 #define LL_CANON64(f) ((f) != (f) ? (u64)0x7ff8000000000000ull : F2U64(f))
